@@ -112,7 +112,7 @@ def corr(ctx):
         ctx.count(f'corr-mvdr-D{D}')
         bf.solve = spy_solve
         try:
-            w = bf.get_mvdr_vector(atf.copy(), noise.copy())
+            w = bf.get_mvdr_vector(atf.copy(order='K'), noise.copy(order='K'))
         except Exception as e:  # noqa
             ctx.corr('get_mvdr_vector', False, f'raised {type(e).__name__}: {e} layout={layout} shapes={atf.shape},{noise.shape}',
                      {'atf': atf, 'noise': noise})
@@ -165,7 +165,7 @@ def corr(ctx):
         ctx.count(f'corr-lcmv-K{K}')
         ctx.count('corr-lcmv-response-' + ('float32-exact' if exact else 'generic'))
         try:
-            w = bf.get_lcmv_vector(atf.copy(), r.copy(), noise.copy())
+            w = bf.get_lcmv_vector(atf.copy(order='K'), r.copy(order='K'), noise.copy(order='K'))
         except Exception as e:  # noqa
             ctx.corr('get_lcmv_vector', False, f'raised {type(e).__name__}: {e}', {'atf': atf, 'r': r, 'noise': noise})
             continue
@@ -194,11 +194,11 @@ def corr(ctx):
         ctx.count(f'corr-souden-wmwf-target-{tkind}')
         ctx.count(f'corr-souden-wmwf-leading-axes-{len(lead) - 1}')
         try:
-            ws = bf.get_mvdr_vector_souden(target.copy(), noise.copy(), ref_channel=ref)
+            ws = bf.get_mvdr_vector_souden(target.copy(order='K'), noise.copy(order='K'), ref_channel=ref)
             if use_default_mu:
-                ww = bf.get_wmwf_vector(target.copy(), noise.copy(), reference_channel=ref)
+                ww = bf.get_wmwf_vector(target.copy(order='K'), noise.copy(order='K'), reference_channel=ref)
             else:
-                ww = bf.get_wmwf_vector(target.copy(), noise.copy(), reference_channel=ref, distortion_weight=mu)
+                ww = bf.get_wmwf_vector(target.copy(order='K'), noise.copy(order='K'), reference_channel=ref, distortion_weight=mu)
         except Exception as e:  # noqa
             ctx.corr('get_mvdr_vector_souden/get_wmwf_vector', False, f'raised {type(e).__name__}: {e}',
                      {'target': target, 'noise': noise})
@@ -239,12 +239,12 @@ def corr(ctx):
                 add(f'refch {F} {D} {fbits([eps])} {cbits(wmat)} {cbits(target)} {cbits(noise)}',
                     (which, want, None, {'w_mat': wmat, 'target': target, 'noise': noise, 'eps': eps}))
             elif which == 'soudenauto':
-                w, want = bf.get_mvdr_vector_souden(target.copy(), noise.copy(), return_ref_channel=True)
+                w, want = bf.get_mvdr_vector_souden(target.copy(order='K'), noise.copy(order='K'), return_ref_channel=True)
                 add(f'soudenauto {F} {D} {fbits([TINY])} {cbits(target)} {cbits(noise)}',
                     (which, int(want), w, {'target': target, 'noise': noise, 'cond': U.cond_max(noise)}))
             else:
                 mu = float(rng.choice([0.0, 1.0, rng.uniform(0, 100)]))
-                w = bf.get_wmwf_vector(target.copy(), noise.copy(), distortion_weight=mu)
+                w = bf.get_wmwf_vector(target.copy(order='K'), noise.copy(order='K'), distortion_weight=mu)
                 add(f'wmwfauto {F} {D} {fbits([mu])} {fbits([TINY])} {cbits(target)} {cbits(noise)}',
                     (which, None, w, {'target': target, 'noise': noise, 'mu': mu, 'cond': U.cond_max(noise)}))
         except Exception as e:  # noqa
@@ -298,7 +298,7 @@ def _criterion(per_ref, target, noise):
 @oracle
 def mvdr_distortionless_optimal(atf, noise, seed):
     """w^H a = 1 and w^H Phi w <= v^H Phi v for distortionless competitors v, for every bin / source of the stack"""
-    w = bf.get_mvdr_vector(atf.copy(), noise.copy())
+    w = bf.get_mvdr_vector(atf.copy(order='K'), noise.copy(order='K'))
     if w.shape != atf.shape:
         return Fail('shape', f'result shape {w.shape} != steering shape {atf.shape}')
     if not np.all(np.isfinite(w)):
@@ -324,7 +324,7 @@ def mvdr_distortionless_optimal(atf, noise, seed):
 @oracle
 def lcmv_meets_constraints(atf, response, noise):
     """w_f^H a_{k,f} = r_k for all k, f (to the single precision of the code's complex64 response cast)"""
-    w = bf.get_lcmv_vector(atf.copy(), response.copy(), noise.copy())
+    w = bf.get_lcmv_vector(atf.copy(order='K'), response.copy(order='K'), noise.copy(order='K'))
     K, F, D = atf.shape
     if w.shape != (F, D):
         return Fail('shape', f'result shape {w.shape} != {(F, D)}')
@@ -344,8 +344,8 @@ def lcmv_meets_constraints(atf, response, noise):
 def souden_rank_one_is_scaled_mvdr(a, sigma, noise, ref):
     """rank-one target sigma a a^H: Souden MVDR = conj(a_ref) * MVDR(a, noise), hence w^H a = a_ref"""
     target = U.rank_one(a, sigma)
-    w = bf.get_mvdr_vector_souden(target.copy(), noise.copy(), ref_channel=ref)
-    wm = bf.get_mvdr_vector(a.copy(), noise.copy())
+    w = bf.get_mvdr_vector_souden(target.copy(order='K'), noise.copy(order='K'), ref_channel=ref)
+    wm = bf.get_mvdr_vector(a.copy(order='K'), noise.copy(order='K'))
     if w.shape != a.shape:
         return Fail('shape', f'result shape {w.shape} != {a.shape}')
     want = np.conj(a[..., ref])[..., None] * wm
@@ -367,7 +367,7 @@ def wmwf_rank_one_is_exact_minimiser(a, sigma, noise, ref, mu):
     if not mu > 0:
         return Skip('mu = 0: covered by wmwf_mu0_equals_souden (Phi_xx alone is singular)')
     target = U.rank_one(a, sigma)
-    w = bf.get_wmwf_vector(target.copy(), noise.copy(), reference_channel=ref, distortion_weight=mu)
+    w = bf.get_wmwf_vector(target.copy(order='K'), noise.copy(order='K'), reference_channel=ref, distortion_weight=mu)
     if w.shape != a.shape:
         return Fail('shape', f'result shape {w.shape} != {a.shape}')
     for idx in U.slices(a.shape[:-1]):
@@ -389,8 +389,8 @@ def wmwf_rank_one_is_exact_minimiser(a, sigma, noise, ref, mu):
 
 @oracle
 def wmwf_mu0_equals_souden(target, noise, ref):
-    ws = bf.get_mvdr_vector_souden(target.copy(), noise.copy(), ref_channel=ref)
-    ww = bf.get_wmwf_vector(target.copy(), noise.copy(), reference_channel=ref, distortion_weight=0.0)
+    ws = bf.get_mvdr_vector_souden(target.copy(order='K'), noise.copy(order='K'), ref_channel=ref)
+    ww = bf.get_wmwf_vector(target.copy(order='K'), noise.copy(order='K'), reference_channel=ref, distortion_weight=0.0)
     for idx in U.slices(target.shape[:-2]):
         t = tol(U.cond_of(noise[idx]))
         if not np.max(np.abs(ws[idx] - ww[idx])) <= t * np.max(np.abs(ws[idx])):
@@ -400,10 +400,10 @@ def wmwf_mu0_equals_souden(target, noise, ref):
 @oracle
 def scaling_invariance(target, noise, ref, mu, c):
     """Souden: invariant to c*target and to c*noise; WMWF: invariant to scaling both by c   (c > 0)"""
-    s0 = bf.get_mvdr_vector_souden(target.copy(), noise.copy(), ref_channel=ref)
-    s1 = bf.get_mvdr_vector_souden(c * target, noise.copy(), ref_channel=ref)
-    s2 = bf.get_mvdr_vector_souden(target.copy(), c * noise, ref_channel=ref)
-    w0 = bf.get_wmwf_vector(target.copy(), noise.copy(), reference_channel=ref, distortion_weight=mu)
+    s0 = bf.get_mvdr_vector_souden(target.copy(order='K'), noise.copy(order='K'), ref_channel=ref)
+    s1 = bf.get_mvdr_vector_souden(c * target, noise.copy(order='K'), ref_channel=ref)
+    s2 = bf.get_mvdr_vector_souden(target.copy(order='K'), c * noise, ref_channel=ref)
+    w0 = bf.get_wmwf_vector(target.copy(order='K'), noise.copy(order='K'), reference_channel=ref, distortion_weight=mu)
     w1 = bf.get_wmwf_vector(c * target, c * noise, reference_channel=ref, distortion_weight=mu)
     for idx in U.slices(target.shape[:-2]):
         t = tol(U.cond_of(noise[idx]))
@@ -419,14 +419,14 @@ def reference_channel_maximises_snr(target, noise, mu):
     library's criterion  sum_f w^H Phi_xx w / sum_f w^H Phi_nn w  over all channels (mu None: Souden, else WMWF)"""
     F, D, _ = target.shape
     if mu is None:
-        w, ref = bf.get_mvdr_vector_souden(target.copy(), noise.copy(), return_ref_channel=True)
-        per = [bf.get_mvdr_vector_souden(target.copy(), noise.copy(), ref_channel=R) for R in range(D)]
+        w, ref = bf.get_mvdr_vector_souden(target.copy(order='K'), noise.copy(order='K'), return_ref_channel=True)
+        per = [bf.get_mvdr_vector_souden(target.copy(order='K'), noise.copy(order='K'), ref_channel=R) for R in range(D)]
         if not (np.isscalar(ref) and 0 <= int(ref) < D):
             return Fail('bad-reference-index', f'returned reference channel {ref!r}')
         cands = [int(ref)]
     else:
-        w = bf.get_wmwf_vector(target.copy(), noise.copy(), distortion_weight=mu)
-        per = [bf.get_wmwf_vector(target.copy(), noise.copy(), reference_channel=R, distortion_weight=mu) for R in range(D)]
+        w = bf.get_wmwf_vector(target.copy(order='K'), noise.copy(order='K'), distortion_weight=mu)
+        per = [bf.get_wmwf_vector(target.copy(order='K'), noise.copy(order='K'), reference_channel=R, distortion_weight=mu) for R in range(D)]
         cands = None
     t = tol(U.cond_max(noise))
     match = [R for R in range(D) if np.max(np.abs(per[R] - w)) <= t * max(np.max(np.abs(per[R])), 1e-300)]
